@@ -6,7 +6,11 @@ proof: Properties_C07.v (Alm.v at the real instance, induction over the script o
 correspondence: Alm.alm_run at binary64 (Corr_C07.chk07) vs the real ALMSolver<ScriptedInner> (drv_C07): whole trace of
   inner-solver arguments (y, Σ, tolerance, err_z buffer on entry, outer_iter) + final Stats + written-back Σ, y;
 oracle: the invariants of the property text evaluated directly on what the implementation handed to the scripted inner
-  solver and returned (independent of the Coq model)."""
+  solver and returned (independent of the Coq model).
+stop(): a script entry may carry `stop` — the scripted inner solver then calls ALMSolver::stop() on the solver that owns it from
+  inside that solve and returns its scripted (usually non-Interrupted) status; the outer loop reads its own stop flag after the
+  inner solve (Alm.ir_stop): the run must end at that outer iteration, status by the ranking Converged > MaxTime > MaxIter >
+  Interrupted (C19's "no further inner solve" clause, checked here on scripted histories)."""
 import math, itertools, importlib.util
 from fractions import Fraction as Fr
 from vf.core import *
@@ -24,7 +28,8 @@ def run_translator(ctx):
     spec.loader.exec_module(mod)
     res = mod.write(REPO, os.path.join(COQ, "gen"))
     ctx.coverage["translator"] = {"AlmGen.v": res["AlmGen.v"], "StatsAcc.v": res["StatsAcc.v"], "detail": res["detail"],
-                                  "kernels": {k: res["kernels"][k] for k in ("g_comp_cond", "g_comp_new", "g_single_new", "g_alm_converged", "g_exit_status", "g_next_tol", "g_out_of_iter") if k in res["kernels"]},
+                                  "kernels": {k: res["kernels"][k] for k in ("g_comp_cond", "g_comp_new", "g_single_new", "g_alm_converged", "g_interrupted", "g_exit", "g_exit_status", "g_next_tol", "g_out_of_iter") if k in res["kernels"]},
+                                  "stop_body": [k for k, _ in res.get("tables", {}).get("g_stop_body", [])],
                                   "accumulator_fields": {k: len(v["table"]) for k, v in res["acc"].items()}}
     for f in ("AlmGen.v", "StatsAcc.v"):
         if res[f] != "ok":
@@ -152,6 +157,15 @@ def gen_script(rng, p, m, L, single, terminal):
                            y=y if has_y else [], iters=rng.choice([0, 1, 7, rng.randint(0, 500)]), sleep=0))
     if terminal and script:
         script[-1]["status"] = INTR
+    # ALMSolver::stop() called from inside one of the solves (which returns its scripted status all the same); the history goes on
+    # after it — the outer loop must not ask for those entries
+    if script and rng.random() < 0.15:
+        k = rng.randrange(len(script)) if rng.random() < 0.7 else 0
+        script[k]["stop"] = True
+        if rng.random() < 0.5 and script[k]["status"] == INTR:
+            script[k]["status"] = rng.choice([1, 1, 3, 5])
+        if rng.random() < 0.1 and k + 1 < len(script):
+            script[rng.randrange(k + 1, len(script))]["stop"] = True
     return script
 
 def gen_case(rng, malformed=False):
@@ -238,12 +252,23 @@ def alphabet_cases(ctx):
                 cases.append(dict(op="alm", p=dict(base), max_iter=L, max_time=HUGE_NS, single=single, split=0,
                                   lb=[-1.0, -INF], ub=[INF, 2.0], f0=1.0, g0=[0.0, 0.0], Σ0=[1.0, 1.0] if single else [1.0, 2.0],
                                   Σkind="valid", y0=[1.0, -1.0], script=script, malformed=False, clock="never", alphabet=True))
+    # the same histories with ALMSolver::stop() called from inside solve #k, for every k (max_iter one above the length, so that
+    # MaxIter does not hide the stop exit at the last entry)
+    for L in range(1, ctx.n(3, 5)):
+        for word in itertools.product(range(len(A)), repeat=L):
+            for ks in range(L):
+                for single in (False, True):
+                    script = [dict(status=A[w][0], eps=A[w][1], has_err=A[w][2] is not None, err=A[w][2] or [],
+                                   has_y=A[w][3] is not None, y=A[w][3] or [], iters=w + 1, sleep=0, stop=(j == ks)) for j, w in enumerate(word)]
+                    cases.append(dict(op="alm", p=dict(base), max_iter=L + (ks + len(word)) % 2, max_time=HUGE_NS, single=single, split=0,
+                                      lb=[-1.0, -INF], ub=[INF, 2.0], f0=1.0, g0=[0.0, 0.0], Σ0=[1.0, 1.0] if single else [1.0, 2.0],
+                                      Σkind="valid", y0=[1.0, -1.0], script=script, malformed=False, clock="never", alphabet=True))
     return cases
 
 def corpus_cases():
     """boundary cases that always run first"""
     base = dict(tol=2.0 ** -10, dtol=2.0 ** -8, Δ=4.0, ipen=1.0, ipf=20.0, itol=1.0, ρ=0.25, θ=0.5, M=4.0, maxpen=64.0, minpen=2.0 ** -9)
-    it = lambda s, eps, err, y, n=1: dict(status=s, eps=eps, has_err=err is not None, err=err or [], has_y=y is not None, y=y or [], iters=n, sleep=0)
+    it = lambda s, eps, err, y, n=1, stop=False: dict(status=s, eps=eps, has_err=err is not None, err=err or [], has_y=y is not None, y=y or [], iters=n, sleep=0, stop=stop)
     mk = lambda **kw: dict(dict(op="alm", p=dict(base), max_iter=4, max_time=HUGE_NS, single=False, split=0, lb=[-1.0, -INF], ub=[INF, 2.0],
                                 f0=1.0, g0=[0.0, 0.0], Σ0=None, Σkind="none", y0=[9.0, -9.0], script=[], malformed=False, clock="never"), **kw)
     cs = []
@@ -262,6 +287,14 @@ def corpus_cases():
     cs.append(mk(single=True, Σ0=[2.0, 2.0], Σkind="valid", script=[it(3, 1.0, [1.0, 0.5], None), it(3, 1.0, [0.5, 0.5], None),
                                                                    it(3, 1.0, [0.5 + 2.0 ** -30, 0.0], None), it(3, 1.0, [1.0, 1.0], None)]))
     cs.append(mk(Σ0=[1.0, 2.0], Σkind="valid", script=[it(6, 0.5, [1.0, 1.0], [1.0, 1.0])] + [it(1, 0.0, [0.0, 0.0], None)] * 3))
+    # ALMSolver::stop() from inside a solve that returns another status: Converged inner / infeasible (-> Interrupted, no further solve);
+    # MaxIter inner on the last permitted iteration (-> MaxIter outranks); ALM-converged (-> Converged outranks); Interrupted inner; m = 0
+    cs.append(mk(script=[it(3, 1.0, [1.0, 1.0], None), it(1, 2.0 ** -12, [0.5, -0.125], [1.0, 1.0], 1, True)] + [it(1, 0.0, [0.0, 0.0], None)] * 2))
+    cs.append(mk(max_iter=2, script=[it(3, 1.0, [1.0, 1.0], None), it(3, 1.0, [1.0, 1.0], None, 1, True)]))
+    cs.append(mk(script=[it(1, 2.0 ** -11, [2.0 ** -9, 0.0], [0.0, 0.0], 1, True), it(3, 1.0, [1.0, 1.0], None)]))
+    cs.append(mk(script=[it(6, 0.5, [1.0, 1.0], [1.0, 1.0], 1, True)] + [it(1, 0.0, [0.0, 0.0], None)] * 3))
+    cs.append(mk(script=[it(3, 1.0, [1.0, 1.0], None, 1, True)] + [it(3, 1.0, [1.0, 1.0], None)] * 3))
+    cs.append(mk(lb=[], ub=[], g0=[], y0=[], script=[it(3, 2.0 ** -3, None, None, 5, True)]))
     # automatic penalty initialisation at both clamp ends and inside
     cs.append(mk(p=dict(base, ipen=0.0, ipf=2.0 ** 20), script=[it(3, 1.0, [1.0, 1.0], None)] * 4))
     cs.append(mk(p=dict(base, ipen=0.0, ipf=2.0 ** -30), g0=[4.0, 4.0], script=[it(3, 1.0, [1.0, 1.0], None)] * 4))
@@ -288,27 +321,36 @@ def to_input(c):
          "%d %s %s" % (c["split"], vec_in(c["lb"]), vec_in(c["ub"])), "%s %s" % (hexf(c["f0"]), vec_in(c["g0"])),
          "%d %s" % (0 if c["Σ0"] is None else 1, vec_in(c["Σ0"] or [])), vec_in(c["y0"]), "%d" % len(c["script"])]
     for it in c["script"]:
-        s.append("%d %s %d %s %d %s %d %d" % (it["status"], hexf(it["eps"]), int(it["has_err"]), vec_in(it["err"]),
-                                             int(it["has_y"]), vec_in(it["y"]), it["iters"], it["sleep"]))
+        s.append("%d %s %d %s %d %s %d %d %d" % (it["status"], hexf(it["eps"]), int(it["has_err"]), vec_in(it["err"]),
+                                                int(it["has_y"]), vec_in(it["y"]), it["iters"], it["sleep"], int(bool(it.get("stop")))))
     return " ".join(s)
 
 def oot_flags(c, o):
     """per executed call: True/False when the driver's clock bounds decide `elapsed > max_time`, None when they straddle it"""
     return [(k["oot_lo"] if k["oot_lo"] == k["oot_hi"] else None) for k in o["calls"]]
 
+def stop_flags(c):
+    """per script entry: ALMSolver::stop() has been called by the time that inner solve returns (the flag is never cleared)"""
+    out, seen = [], False
+    for it in c["script"]:
+        seen = seen or bool(it.get("stop"))
+        out.append(seen)
+    return out
+
 def to_coq(c, o, lenient=False):
     """lenient: a solve that left err_z untouched is given the buffer content the driver observed on entry"""
     p = c["p"]
     flags = oot_flags(c, o)
+    stops = stop_flags(c)
     items = []
     for k, it in enumerate(c["script"]):
         oot = flags[k] if k < len(flags) else False
         if lenient and not it["has_err"] and k < len(o["calls"]):
             it = dict(it, has_err=True, err=[unhex(t) for t in o["calls"][k]["err_in"]])
-        items.append("(%s, %s, %s, %s, %s, %s)" % (coqnat(it["status"]), coqf(it["eps"]),
-                                                  "Some %s" % coqvec(it["err"]) if it["has_err"] else "None",
-                                                  "Some %s" % coqvec(it["y"]) if it["has_y"] else "None",
-                                                  coqnat(it["iters"]), coqbool(bool(oot))))
+        items.append("(%s, %s, %s, %s, %s, %s, %s)" % (coqnat(it["status"]), coqf(it["eps"]),
+                                                      "Some %s" % coqvec(it["err"]) if it["has_err"] else "None",
+                                                      "Some %s" % coqvec(it["y"]) if it["has_y"] else "None",
+                                                      coqnat(it["iters"]), coqbool(bool(oot)), coqbool(stops[k])))
     calls = ["(%s, %s, %s, %s, %s)" % (coqvec(k["y"]), coqvec(k["S"]), coqf(k["tol"]), coqvec(k["err_in"]), coqnat(k["outer_iter"]))
              for k in o["calls"]]
     return "CAlm %s %s %s %s %s %s %s %s %s %s %s %s %s %s %s %s %s %s %s %s %s" % (
@@ -444,14 +486,21 @@ def oracle(ctx, c, o):
         V("reported-delta", "Stats.δ=%r but ‖slack error‖∞ of the last solve is %r" % (delta, norms[-1]))
     conv_at = [script[k]["status"] == CONV and script[k]["eps"] <= p["tol"] and norms[k] <= p["dtol"] for k in range(n)]
     flags = oot_flags(c, o)
-    # ---- (3) Interrupted is returned immediately
+    # ---- (3) Interrupted is returned immediately; a stop() request ends the run at the outer iteration it landed in
+    stops = stop_flags(c)
     for k in range(n):
         if script[k]["status"] == INTR and k != n - 1:
             V("interrupted-not-immediate", "inner solve #%d was interrupted but %d more solves followed" % (k, n - 1 - k))
+        elif stops[k] and k != n - 1:
+            V("alm-runs-on-after-stop-request", "ALMSolver::stop() was called during inner solve #%d (which returned %s) but %d more inner solves were started" %
+              (stops.index(True), ST[script[stops.index(True)]["status"]], n - 1 - k)); break
+    for k in range(n):
+        if o["calls"][k].get("stopped", stops[k]) != stops[k]:
+            V("exception", "driver bookkeeping: stop() state after call %d is %s, script says %s" % (k, o["calls"][k].get("stopped"), stops[k]))
     if last["status"] == INTR and status != "Interrupted":
         V("interrupted-status", "last inner solve was interrupted, status %s" % status)
-    if status == "Interrupted" and last["status"] != INTR:
-        V("interrupted-status", "status Interrupted but the last inner solve returned %s" % ST[last["status"]])
+    if status == "Interrupted" and last["status"] != INTR and not stops[n - 1]:
+        V("interrupted-status", "status Interrupted but the last inner solve returned %s and stop() was not called" % ST[last["status"]])
     # ---- (4) Converged exactly when ...
     if last["status"] != INTR:
         if (status == "Converged") != conv_at[-1]:
@@ -459,9 +508,11 @@ def oracle(ctx, c, o):
         # ---- (5) status selection and no solve after an exit condition
         if not conv_at[-1] and status != "Converged":
             f = flags[-1]
-            allowed = {True: ["MaxTime"], False: ["MaxIter"], None: ["MaxTime", "MaxIter"]}[f]
+            # ranking Converged > MaxTime > MaxIter > Interrupted (ALM's own stop flag)
+            low = "MaxIter" if n == c["max_iter"] else "Interrupted" if stops[n - 1] else "MaxIter"
+            allowed = {True: ["MaxTime"], False: [low], None: ["MaxTime", low]}[f]
             if status not in allowed:
-                V("status-selection", "status %s; converged=False out_of_time=%s solves=%d max_iter=%d" % (status, f, n, c["max_iter"]))
+                V("status-selection", "status %s; converged=False out_of_time=%s solves=%d max_iter=%d stop requested=%s" % (status, f, n, c["max_iter"], stops[n - 1]))
             elif status == "MaxIter" and n != c["max_iter"]:
                 V("status-selection", "status MaxIter after %d of %d iterations" % (n, c["max_iter"]))
     for k in range(n - 1):
@@ -576,7 +627,7 @@ def signature(c, o):
         a, b = [unhex(t) for t in calls[k - 1]["S"]], [unhex(t) for t in calls[k]["S"]]
         cap = c["p"]["maxpen"]
         g.append("".join(("c" if y == cap and y != x else "g" if y > x else "=" if y == x else "d") for x, y in zip(a, b))[:3])
-    sts = "".join(str(it["status"]) for it in c["script"][:len(calls)][-3:])
+    sts = "".join(str(it["status"]) + ("!" if it.get("stop") else "") for it in c["script"][:len(calls)][-3:])
     return "%s/%d/%s%s/%s/%s/%s/%s" % (o["status"], min(len(calls), 6), "m%d" % min(len(c["lb"]), 3), "s" if c["single"] else "", c["Σkind"],
                                    ",".join(g), sts, c["clock"])
 
@@ -584,18 +635,21 @@ def run(ctx):
     ctx.coverage["rule"] = ("ALM configurations x scripted inner-solver histories (length <= 12): statuses from the whole enum, ε around the final tolerance "
                             "(exact ties), slack errors shrinking/stagnating/growing per component with exact ties |e_i| = θ|e_i_old| and ‖e‖∞ = dual_tolerance in dyadics, "
                             "saturation at max_penalty, single_penalty_factor, caller Σ (valid/rejected/above max/negative), m in 0..5, max_iter in {0..12,100}, "
-                            "clock: never / max_time<=0 / tripped by a sleeping inner solve; + a malformed-parameter stream (12%); thorough adds every history of length <= 5 "
-                            "over a 6-letter alphabet. A case is distinct by (final status, #solves, m class, single, Σ kind, per-iteration growth pattern, last statuses, clock)")
+                            "clock: never / max_time<=0 / tripped by a sleeping inner solve; ALMSolver::stop() called from inside a scripted solve that returns any status (15%); "
+                            "+ a malformed-parameter stream (12%); thorough adds every history of length <= 5 "
+                            "over a 6-letter alphabet and every history of length <= 4 with stop() inside each of its solves. A case is distinct by (final status, #solves, m class, single, Σ kind, per-iteration growth pattern, last statuses, clock)")
     ctx.assumptions += [
         "theorems are over ideal reals: NaN/inf and rounding enter only through the binary64 run of the same definitions (correspondence)",
         "the clock is modelled by one boolean per inner solve (elapsed > max_time when the loop reads the clock); the driver brackets the loop's reading with its own readings and discards straddling cases",
         "the inner solver is modelled as a script entry (status, ε, err_z written or untouched, y written or untouched, iterations); x is ignored by the outer loop",
+        "ALM's own stop flag is modelled by one boolean per inner solve (set when the loop reads it after that solve); in the driver stop() is called synchronously from inside the scripted solve",
         "preconditions of the penalty invariants: initial Σ > 0 (caller's or initial_penalty or auto with 0 < min_penalty <= max_penalty), "
         "single_penalty_factor => a uniform initial Σ (setConstant(fmax(Σ(0), ..)) would lower larger later components); of the tolerance invariants: 0 <= tolerance_update_factor <= 1, tolerance <= initial_tolerance, 0 <= initial_tolerance; "
         "of the multiplier bounds: max_multiplier >= 0; m = 0: the inner solver's own contract (Converged => ε <= requested tolerance) is needed for 'Converged iff'",
         "eval_proj_multipliers is the BoxConstrProblem implementation (Prox.proj_multipliers, proved in C15)",
         "tie 1: translate/gen_C07_alm.py (restricted C++ expression/statement grammar, ~500 lines of Python) is trusted to translate what it accepts faithfully; "
-        "statement ORDER inside the loop beyond what it checks (projection first, Interrupted test before the termination test, termination before the penalty update) "
+        "statement ORDER inside the loop beyond what it checks (projection first, Interrupted test before the termination test, the read of ALM's stop flag after the inner solve "
+        "and after the Interrupted return and before the exit test, termination before the penalty update) "
         "and the clock are covered by tie 2 only; out-of-grammar source regions fall back to the reference kernels (recorded under coverage.translator)",
     ]
     run_translator(ctx)
@@ -621,6 +675,10 @@ def run(ctx):
         ctx.count(kind)
         if c["op"] == "alm":
             ctx.count("clock:" + c["clock"]); ctx.count("sigma:" + c["Σkind"])
+            if any(it.get("stop") for it in c["script"]):
+                ctx.count("stop-request-in-history")
+                if "exc" not in o and any(it.get("stop") for it in c["script"][:len(o.get("calls", []))]):
+                    ctx.count("stop-request-executed:" + o["status"])
         ctx.case(signature(c, o), sample={"input": to_input(c), "impl": {a: b for a, b in o.items() if a != "calls"}, "n_calls": len(o.get("calls", []))} if k % 211 == 3 else None)
         for sig, msg in oracle(ctx, c, o):
             ctx.violation(sig, msg, {"driver": "drv_C07", "input": to_input(c), "case": c, "impl_output": o, "why": msg})
